@@ -85,7 +85,141 @@ Inductive chain (d : dialect) (src : str) (cm : bool) : Z -> list Tok -> Prop :=
     chain d src cm (tend t) ts -> chain d src cm f (t :: ts).
 (* Init skips a leading byte order mark *)
 Definition bom_len (src : str) : Z :=
-  match src with 239%N :: 187%N :: 191%N :: _ => 3 | _ => 0 end.
+  match src with
+  | b0 :: b1 :: b2 :: _ => if ((b0 =? 239) && (b1 =? 187) && (b2 =? 191))%N then 3 else 0
+  | _ => 0
+  end.
 Definition is_auto_semi_tok (t : Tok) : bool :=
   match ttok t with T_SEMICOLON => str_eqb (tlit t) [10%N] | _ => false end.
 Definition is_eof_tok (t : Tok) : bool := match ttok t with T_EOF => true | _ => false end.
+
+(* ---- C32 / C16: the decidable "plain" predicates (no branch that the other dialect lacks) ---- *)
+Fixpoint errs_eqb (a b : list (Z * Z)) : bool :=
+  match a, b with
+  | [], [] => true
+  | (o1, c1) :: a', (o2, c2) :: b' => (o1 =? o2) && (c1 =? c2) && errs_eqb a' b'
+  | _, _ => false
+  end.
+Definition sc_eqb (a b : Sc) : bool :=
+  (off a =? off b) && str_eqb (rest a) (rest b) && errs_eqb (errs a) (errs b) && (lineoff a =? lineoff b).
+(* the condition of skipWhitespace *)
+Definition is_blank_rune (semi : bool) (c : Z) : bool :=
+  (c =? 32) || (c =? 9) || ((c =? 10) && negb semi) || (c =? 13).
+
+(* check P on every state from which a step of the run of dialect d is taken *)
+Fixpoint all_steps (P : St -> bool) (ul ud : Z -> bool) (d : dialect) (fuel : nat) (cm : bool) (st : St) : bool :=
+  match fuel with
+  | O => true
+  | S f =>
+    P st &&
+    match step ul ud d cm st with
+    | Ok (Emit t st') => match ttok t with T_EOF => true | _ => all_steps P ul ud d f cm st' end
+    | Ok (Again st') => all_steps P ul ud d f cm st'
+    | _ => true
+    end
+  end.
+
+Section Plain.
+Variable ul ud : Z -> bool.
+
+(* TPL vs XGo: the two comment sub-scanners agree on the comment that starts at s *)
+Definition sharp_agree (s : Sc) : bool :=
+  match scan_comment_x XGo s with
+  | Ok (s2, lit, _) => sc_eqb (fst (scan_sharp_tpl s)) s2 && str_eqb (snd (scan_sharp_tpl s)) lit
+  | _ => false
+  end.
+Definition comment_agree (s : Sc) : bool :=
+  match scan_comment_x XGo s with
+  | Ok (s2, lit, _) => sc_eqb (fst (scan_comment_tpl s)) s2 && str_eqb (snd (scan_comment_tpl s)) lit
+  | _ => false
+  end.
+Definition slash_agree (st : St) (s : Sc) : bool :=
+  let '(look, le) := if semi st then find_line_end (S (length (rest (nxt s)))) (nxt s) else (nxt s, false) in
+  if semi st && le then true else comment_agree (with_look s look).
+
+(* the XGo scanner, about to take a step from st, takes no branch that tpl/scanner lacks or
+   does differently: no keyword, no c"/py" string, no '~' '@' '**', no blank right after a
+   number's unit, and a comment on which the two scanComment variants agree *)
+Definition xt_plain (st : St) : bool :=
+  match unit st with
+  | _ :: _ => negb (is_blank_rune (semi st) (cur (sc st)))
+  | [] =>
+    let s := skip_ws (S (length (rest (sc st)))) (semi st) (sc st) in
+    let c := cur s in
+    if is_letter ul c then
+      let s1 := scan_ident ul ud (S (length (rest s))) s in
+      let lit := slice s s1 in
+      if Nat.ltb 1 (length lit) then
+        match lookup XGo lit with
+        | T_KW _ => false
+        | _ => negb (str_eqb lit [112; 121]%N && (cur s1 =? 34))
+        end
+      else negb (((c =? 99) || (c =? 67)) && (cur s1 =? 34))
+    else if is_decimal c || ((c =? 46) && is_decimal_b (peek s)) then true
+    else
+      negb (c =? 126) && negb (c =? 64) && negb ((c =? 42) && (cur (nxt s) =? 42))
+      && (if (c =? 35) && negb (semi st) then sharp_agree s else true)
+      && (if (c =? 47) && ((cur (nxt s) =? 47) || (cur (nxt s) =? 42)) then slash_agree st s else true)
+  end.
+Definition shared (cm : bool) (src : str) : bool := all_steps xt_plain ul ud XGo (fuel_of src) cm (init src).
+End Plain.
+
+(* ---- C16: XGo vs go/scanner ---- *)
+Definition tk_eq_dec (a b : tk) : {a = b} + {a <> b}.
+Proof. decide equality. apply Z.eq_dec. Defined.
+Definition tk_eqb (a b : tk) : bool := if tk_eq_dec a b then true else false.
+
+Section PlainGo.
+Variable ul ud : Z -> bool.
+
+(* the two scanNumber variants (suffix handling) agree on the number that starts at s *)
+Definition num_agree (s : Sc) : bool :=
+  let '(t1, s1, u1) := scan_number ul ud XGo s in
+  let '(t2, s2, u2) := scan_number ul ud Go s in
+  tk_eqb t1 t2 && sc_eqb s1 s2 && (u1 =? u2).
+(* the two scanComment variants agree on the comment at s (they differ on line directives with
+   numbers above 1<<30) *)
+Definition comment_agree_go (s : Sc) : bool :=
+  match scan_comment_x XGo s, scan_comment_x Go s with
+  | Ok (s2, lit, _), Ok (s2', lit', _) => sc_eqb s2 s2' && str_eqb lit lit'
+  | _, _ => false
+  end.
+(* characters that start a token in the default branch of Scan, other than EOF / newline *)
+Definition punct_char (c : Z) : bool :=
+  existsb (Z.eqb c) [34; 39; 96; 58; 46; 44; 59; 40; 41; 91; 93; 123; 125; 43; 45; 42; 47; 37; 94; 60; 62; 61; 33; 38; 124].
+(* after '!' or '...' the XGo scanner has insertSemi set and go/scanner has not: harmless iff
+   the next token is on the same line, is not a comment and is not an illegal character *)
+Definition safe_follow (s0 : Sc) : bool :=
+  let s := skip_ws (S (length (rest s0))) true s0 in
+  let c := cur s in
+  negb (c =? 10) && negb (c =? -1)
+  && negb ((c =? 47) && ((cur (nxt s) =? 47) || (cur (nxt s) =? 42)))
+  && (is_letter ul c || is_decimal c || punct_char c).
+
+(* the XGo scanner, about to take a step from st, takes no extension branch and none of the
+   branches on which it is known to differ from go/scanner *)
+Definition xg_plain (st : St) : bool :=
+  match unit st with
+  | _ :: _ => false
+  | [] =>
+    let s := skip_ws (S (length (rest (sc st)))) (semi st) (sc st) in
+    let c := cur s in
+    if is_letter ul c then
+      let s1 := scan_ident ul ud (S (length (rest s))) s in
+      let lit := slice s s1 in
+      if Nat.ltb 1 (length lit) then negb (str_eqb lit [112; 121]%N && (cur s1 =? 34))       (* py"..." *)
+      else negb (((c =? 99) || (c =? 67)) && (cur s1 =? 34))                                  (* c"..." *)
+    else if is_decimal c || ((c =? 46) && is_decimal_b (peek s)) then num_agree s              (* unit / r suffix *)
+    else
+      negb (c =? 35) && negb (c =? 36) && negb (c =? 63) && negb (c =? 126)                   (* # $ ? ~ *)
+      && negb ((c =? 45) && (cur (nxt s) =? 62))                                               (* -> *)
+      && negb ((c =? 60) && (cur (nxt s) =? 62))                                               (* <> *)
+      && negb ((c =? 61) && (cur (nxt s) =? 62))                                               (* => *)
+      && (if (c =? 47) && ((cur (nxt s) =? 47) || (cur (nxt s) =? 42))
+          then negb (semi st) && comment_agree_go s else true)         (* no comment while a semicolon is pending *)
+      && (if (c =? 33) && negb (cur (nxt s) =? 61) then safe_follow (nxt s) else true)          (* ! *)
+      && (if (c =? 46) && (cur (nxt s) =? 46) && (peek (nxt s) =? 46)%N && (nparen st =? 0)
+          then safe_follow (nxt (nxt (nxt s))) else true)                                       (* ... outside parentheses *)
+  end.
+Definition go_like (cm : bool) (src : str) : bool := all_steps xg_plain ul ud XGo (fuel_of src) cm (init src).
+End PlainGo.
